@@ -103,7 +103,14 @@ def from_spec(spec, lazy=False):
         if "lazy" in spec:
             from vyxal.LazyList import LazyList
 
-            return LazyList(iter([from_spec(x) for x in spec["lazy"]]))
+            ll = LazyList(iter([from_spec(x) for x in spec["lazy"]]))
+            # optional observation history before the value is handed out: "read": k items / "all"
+            rd = spec.get("read")
+            if rd == "all":
+                len(ll)
+            elif isinstance(rd, int) and rd > 0:
+                ll.has_ind(rd - 1)
+            return ll
         if "fn" in spec:
             from lib import env
 
